@@ -194,6 +194,26 @@ def run(ctx):
                 bad = f'second application failed: {r2[1]}'
             elif len(names) == 1 and not r2[1].identical(out):
                 bad = 'normalising an already normalised dataset changed it'
+        # history: the depth coordinates were looked at through the accessor, then the `positive` attribute was corrected in
+        # place on the same dataset object, then the dataset is normalised through the accessor: the result is that of a
+        # fresh dataset with the same content
+        if not bad and via_ems and pd is not None and dts is not False and all('positive' in ds[nm].attrs for nm in names):
+            h = ds.copy(deep=True)
+            with warnings.catch_warnings():
+                warnings.simplefilter('ignore')
+                attempt(lambda: [c.name for c in h.ems.depth_coordinates])
+                attempt(lambda: h.ems.depth_coordinate.name)
+                for nm in names:
+                    h[nm].attrs['positive'] = 'up' if h[nm].attrs['positive'] == 'down' else 'down'
+                fresh = h.copy(deep=True)
+                ra = attempt(lambda: h.ems.normalize_depth_variables(positive_down=pd, deep_to_shallow=dts))
+                rf = attempt(lambda: depth_ops.normalize_depth_variables(fresh, names, positive_down=pd, deep_to_shallow=dts))
+            ctx.count('history:accessor, attribute edited in place, accessor')
+            if ra[0] != rf[0] or (ra[0] == 'ok' and not ra[1].identical(rf[1])):
+                bad = ('after dataset.ems.depth_coordinates was used, an in-place correction of the positive attribute is not '
+                       'honoured: the accessor returns ' + (str({nm: ra[1][nm].values.tolist() for nm in names}) if ra[0] == 'ok' else str(ra[1]))
+                       + ', a fresh dataset with the same content gives '
+                       + (str({nm: rf[1][nm].values.tolist() for nm in names}) if rf[0] == 'ok' else str(rf[1])))
         if bad:
             ctx.report('property', bad, case)
             continue
